@@ -63,16 +63,27 @@ def attach(scratch, files):
 
 
 def split_blocks(out):
-    """per-harness output blocks"""
+    """per-harness output blocks; handles both sequential output and the `Thread N:` prefixes of -j runs"""
     blocks = {}
-    cur = None
+    cur = {}        # thread id -> harness
+    active = None   # thread whose block we are in
     for line in out.split('\n'):
-        m = re.match(r'^Checking harness (\S+?)\.\.\.', line)
+        m = re.match(r'^(?:Thread (\d+): )?Checking harness (\S+?)\.\.\.', line)
         if m:
-            cur = m.group(1).split('::')[-1]
-            blocks[cur] = []
-        if cur:
-            blocks[cur].append(line)
+            t = m.group(1) or '-'
+            name = m.group(2).split('::')[-1]
+            cur[t] = name
+            blocks.setdefault(name, [])
+            active = t if m.group(1) is None else None
+            continue
+        m = re.match(r'^Thread (\d+):\s*$', line)
+        if m:
+            active = m.group(1)
+            continue
+        if line.startswith('Manual Harness Summary') or line.startswith('Complete - '):
+            active = None
+        if active is not None and active in cur:
+            blocks[cur[active]].append(line)
     return blocks
 
 
